@@ -9,5 +9,5 @@ CONSTANTS
   MaxLen = 5
   Limits = {0, 1, 2, 3, 4, 999999999}
   Splitters = {"none", "hyphen", "every2"}
-INVARIANTS BreakInv PropBreak PropSplit Emit
+INVARIANTS BreakInv SplitInv SplitRefines PropBreak PropSplit Emit
 CHECK_DEADLOCK FALSE
